@@ -24,7 +24,7 @@ ASSUMPTIONS = [
     'an exact tie D == t is decisive only where the float evaluation is exact under two independent formulas (e.g. x range a power of two)',
     'y values are irrelevant to the rule (three y patterns are enumerated to check exactly that)',
 ]
-BOUNDS = {'quick': {'gaps': '{1,2,3,4}^(n-1), n=2..7', 'x0': '{0,7}', 'y patterns': 3},
+BOUNDS = {'quick': {'gaps': '{1,2,3,4}^(n-1), n=2..7', 'x0': '{0,7}', 'y patterns': 3, 're-embedded': 'n<=6 with x0 in {2^31, -2^33} and with x*2^-40'},
           'thorough': {'gaps': '{1,2,3,4}^(n-1), n=2..9', 'x0': '{0,7,-3}', 'y patterns': 3}}
 TECHNIQUE = 'bounded-exhaustive enumeration of x sequences and tie/midpoint thresholds; each label sequence validated as a run of the reference linkage automaton (exact rational distances)'
 LEVEL_TEXT = ('Model checking: all strictly increasing integer x sequences with gaps in {1..4} up to n=7 (9 thorough), 4 linkages, thresholds placed '
@@ -45,7 +45,12 @@ def units(tier, seed):
         K = 1 if n < 6 else 4 ** (n - 5)
         K = min(K, 64)
         for k in range(K):
-            u.append((n, k, K, x0s + (extra * 16,)))
+            u.append((n, k, K, x0s + (extra * 16,), 1))
+    for n in range(2, (6 if tier == 'quick' else 8) + 1):
+        K = 1 if n < 6 else 4 ** (n - 5)
+        for k in range(K):
+            u.append((n, k, K, (2 ** 31, -(2 ** 33)), 1))
+            u.append((n, k, K, (0, 5), -40))
     return u
 
 
@@ -56,19 +61,20 @@ def y_patterns(xs):
 
 def dist_exact(link, xs, a, i):
     """Exact linkage distance (not yet normalised) of point i to the cluster a..i-1."""
+    F = Fraction
     if link == 'single':
-        return Fraction(xs[i] - xs[i - 1])
+        return F(xs[i]) - F(xs[i - 1])
     if link == 'complete':
-        return Fraction(xs[i] - xs[a])
+        return F(xs[i]) - F(xs[a])
     m = i - a
     if link == 'centroid':
-        return abs(Fraction(xs[i]) - Fraction(sum(xs[a:i]), m))
-    return Fraction(sum(abs(xs[j] - xs[i]) for j in range(a, i)), m)
+        return abs(F(xs[i]) - sum(F(v) for v in xs[a:i]) / m)
+    return sum(abs(F(xs[j]) - F(xs[i])) for j in range(a, i)) / m
 
 
 def dist_float_variants(link, xs, a, i, L):
     """Two independent IEEE evaluations of the normalised distance."""
-    L = float(L)
+    L = float(xs[-1]) - float(xs[0])
     if link == 'single':
         v = math.fabs(float(xs[i]) - float(xs[i - 1])) / L
         return (v, abs(float(xs[i] - xs[i - 1])) / L)
@@ -92,7 +98,7 @@ def dist_float_variants(link, xs, a, i, L):
 
 
 def attainable(link, xs):
-    L = xs[-1] - xs[0]
+    L = Fraction(xs[-1]) - Fraction(xs[0])
     vals = set()
     n = len(xs)
     for i in range(1, n):
@@ -128,7 +134,7 @@ def check_labels(link, xs, ys, t, stats=None):
         return None, [Failure(fn, lib.exc_kind(e), key, case, repr(e), (n, 0))]
     if len(lab) != n or lab[0] != 0 or any((b - a) not in (0, 1) for a, b in zip(lab, lab[1:])) or any(float(v) != int(v) for v in lab):
         return None, [Failure(fn, 'labels-not-contiguous-runs-from-0', key, case, 'labels=%s' % lab, (n, 0))]
-    L = xs[-1] - xs[0]
+    L = Fraction(xs[-1]) - Fraction(xs[0])
     T = Fraction(t)
     a = 0
     for i in range(1, n):
@@ -160,7 +166,8 @@ def check_labels(link, xs, ys, t, stats=None):
 
 
 def run_unit(unit, res):
-    n, k, K, x0s = unit
+    n, k, K, x0s, sexp = unit
+    sc = 2.0 ** sexp if sexp != 1 else 1
     stats = {}
     gaps = (1, 2, 3, 4)
     total = len(gaps) ** (n - 1)
@@ -176,6 +183,8 @@ def run_unit(unit, res):
             xs = [x0]
             for d in g:
                 xs.append(xs[-1] + d)
+            if sc != 1:
+                xs = [v * sc for v in xs]
             ths = {link: thresholds(link, xs) for link in LINK}
             yp = y_patterns(xs)
             for link in LINK:
